@@ -223,6 +223,8 @@ class StackModel(object):
             return E(b[1], [name, origin(arg)])
         if k == "retexc":
             return V(arg)
+        if k == "ret":
+            return V(b[1])
         if k == "compose":
             cur = V(arg)
             for sb in b[1]:
